@@ -11,7 +11,9 @@ REAL, STUBS = _hist.REAL, _hist.STUBS
 RULE = ("per-run seed -> knobs + a history of 1-6 writer transactions (add/group/update/delete_by_term/"
         "delete_by_query/delete_document/add_field/remove_field ending in commit with a merge choice, cancel, "
         "exception in the with-block or a one-shot injected I/O error), with process restarts in between; executed on the "
-        "simulated machine and on a dictionary model. A run is non-trivial if it performed >=1 commit and >=1 "
+        "simulated machine and on a dictionary model; after every commit and restart every read API named in the statement is probed "
+        "(reader dump incl. column values, all_stored_fields, iter_docs, Every, sorted, facets, term searches, 4 generated boolean trees); "
+        "with two unique fields the second key is independent of the first in half of those runs. A run is non-trivial if it performed >=1 commit and >=1 "
         "probe of the read APIs; distinct = distinct SHA-256 of the event log.")
 ASSUMPTIONS = ["analysis (field.index) is trusted: the model derives a document's terms from it",
                "crash model is not exercised here (see C02); faults are cancel / user exception / one-shot EIO or ENOSPC inside the with-block body",
